@@ -204,7 +204,7 @@ def _is_attr_path(e: ast.AST) -> bool:
     return isinstance(e, ast.Attribute) and dotted_name(e) is not None
 
 
-def canonical_function(fn_node: ast.FunctionDef, unnest: bool = True) -> ast.FunctionDef:
+def canonical_function(fn_node: ast.FunctionDef, unnest: bool = True, short: bool = False) -> ast.FunctionDef:
     """A parent-linked clone of the function in which two harmless restructurings are undone, so that rules written against the plain
     form keep matching:
       * a local bound exactly once to a pure attribute path (`cum = self.TotalCummRevenue.value`) is replaced by that path wherever it
@@ -212,8 +212,9 @@ def canonical_function(fn_node: ast.FunctionDef, unnest: bool = True) -> ast.Fun
       * inside loop bodies `if <test>: continue` followed by more statements becomes `if not <test>: <those statements>`
         (a double negation `not (not x)` / `not (x)` is simplified)."""
     from .srcmodel import set_parents
+    min_dots = 1 if short else 2        # short: also `reserv = model.reserv` (object handles); default keeps such conventional names as written
     if not unnest and not any(isinstance(n, ast.Assign) and len(n.targets) == 1 and isinstance(n.targets[0], ast.Name) and _is_attr_path(n.value)
-                              and norm(n.value).count('.') >= 2 for n in ast.walk(fn_node)):
+                              and norm(n.value).count('.') >= min_dots for n in ast.walk(fn_node)):
         return fn_node
     f = clone(fn_node)
     # ---- attribute aliases
@@ -232,7 +233,7 @@ def canonical_function(fn_node: ast.FunctionDef, unnest: bool = True) -> ast.Fun
             if any((path == r or path.startswith(r + '.')) and ln >= n.lineno and ln != n.lineno for r, ln in rebinds):
                 continue
             # keep short, conventional names of whole model parts as they are (econ = model.economics): rules use them as written
-            if path.count('.') < 2:
+            if path.count('.') < min_dots:
                 continue
             aliases[n.targets[0].id] = n.value
 
@@ -243,6 +244,10 @@ def canonical_function(fn_node: ast.FunctionDef, unnest: bool = True) -> ast.Fun
             return n
     if aliases:
         f = A().visit(f)
+        if short:
+            # a handle may make further paths visible (`reserv = model.reserv; t0 = reserv.Trock.value`): one more round
+            ast.fix_missing_locations(f)
+            return canonical_function(f, unnest=unnest, short=False)
 
     # ---- guard clauses with continue
     def neg(t: ast.AST) -> ast.AST:
